@@ -10,7 +10,7 @@ import ast
 from ..engine import rule
 from ..model import Undecided
 from ..cfg import dotted, call_name, is_call, simple_name, unparse, const_value, contains, enclosing, implied
-from ..flow import Defs, depends, expand, names_in, try_const
+from ..flow import Canon, Defs, depends, expand, names_in, try_const
 from ..util import keyword, returns_of, calls_in, inside, order_key
 
 NOT_DECIDED = 'the outcome under all interleavings of threads and processes; flock semantics of the file system'
@@ -223,7 +223,8 @@ def c08c(ctx):
     ctx.check(ok_dir, fn.short + ':in-lock-dir', 'lock file lives in self.lock_dir', fn)
     # all of tile.coord: every occurrence of tile.coord is used whole (argument of map/join/str/format) or all
     # three indices occur
-    occ = [x for r in rets for x in ast.walk(r.value) if isinstance(x, ast.Attribute) and x.attr == 'coord']
+    cf = Canon(fn)
+    occ = [x for r in rets for x in ast.walk(cf.linked(r.value)) if isinstance(x, ast.Attribute) and x.attr == 'coord']
     whole = [x for x in occ if not isinstance(getattr(x, '_parent', None), ast.Subscript)]
     idx = {const_value(x._parent.slice) for x in occ if isinstance(getattr(x, '_parent', None), ast.Subscript)
            and not isinstance(x._parent.slice, ast.Slice)}
